@@ -547,3 +547,26 @@ def call_guard(fn, expected=()):
         if isinstance(e, (KeyboardInterrupt, SystemExit)):
             raise
         return ("esc", type(e).__name__, innermost_repo_frame(e), str(e)[:200])
+
+
+def attach_m1_encoder(mon=MON):
+    """M1 at the encoder's quiescent point: full recount of the graph that
+    smiles_to_mol returns (name bound in selfies.encoder)."""
+    enc = _mods()["encoder"]
+    orig = getattr(enc, "smiles_to_mol", None)
+    if orig is None:
+        mon.unreached.add("M1.encoder")
+        return False
+
+    def s2m(*a, **k):
+        mol = orig(*a, **k)
+        if mon.enabled:
+            try:
+                recount_graph(mol, None, mon)
+                mon.counts["M1.encoder_graphs"] += 1
+            except Exception:
+                mon.flag("M1", "monitor error in encoder recount: " + traceback.format_exc(limit=2))
+        return mol
+    s2m.__wrapped__ = orig
+    enc.smiles_to_mol = s2m
+    return True
